@@ -201,7 +201,7 @@ def run(chk):
                           % (e, progs.show_prog(calls)), {"calls": calls})
     chk.stage("rewrite")
     tl = [{k: c[k] for k in ("before", "after", "err", "origvars", "inputs", "ids_before", "ids_after")} for c in cases]
-    out = tlc.judge_batch("Rewrite", tl, chunk=600, tags=("BAD", "JUDGED"), chk=chk, jobs=12)
+    out = tlc.judge_batch("Rewrite", tl, chunk=220, tags=("BAD", "JUDGED"), chk=chk, jobs=16)
     chk.stage("tlc_judge")
     bad = {}
     for t in out["BAD"]:
